@@ -8,7 +8,7 @@ from ..core import Ctx, RuleResult, finding, short, walk_no_nested
 from ..model import AnalysisError, norm
 from ..mutants import Mut
 from ..rules import ret, sib
-from ..rules.defuse import DefUse
+from ..rules.defuse import DefUse, Elem
 from ..rules.exc import ExcEngine
 from ..rules.util import callee_name, cfg_of, node_exprs, nodes_where
 from ..tables import C08_RET_EXEMPT
@@ -621,6 +621,23 @@ def rule_stale_position(ctx: Ctx) -> RuleResult:
             rr.inst(f"{short(fi)}:{norm(c, 40)}", True, {"function": short(fi), "call": norm(c, 50), "handled": sorted(handled)})
             if not ok:
                 rr.add(finding("EXC", fi, c, f"`{norm(c, 50)}` restores the position that set_focus() parked in set_focus_pending during an earlier call without handling the walker's IndexError: when the list shrank in between (focus moved, then items deleted, then render) the error escapes render()/keypress()", construct=f"stale position restored unguarded: {norm(c, 50)}"))
+            # ... and only when the walker has a focus at all *now*: the list may have been emptied since the change
+            # was parked - then there is nothing to place and the method has to leave (a SimpleFocusListWalker
+            # ignores the restore while empty and calculate_visible() answers (None, None, None))
+            cfg = du.cfg
+            none_tests = []
+            for t in cfg.nodes:
+                if t.kind != "test":
+                    continue
+                for q in ast.walk(t.ast):
+                    if isinstance(q, ast.Compare) and isinstance(q.left, ast.Name) and isinstance(q.ops[0], ast.Is) and isinstance(q.comparators[0], ast.Constant) and q.comparators[0].value is None:
+                        defs = du.reaching(q.left.id, t)
+                        if any(isinstance(v, Elem) or (isinstance(v, ast.AST) and "get_focus" in ast.unparse(v)) or (dn is not None and dn.ast is not None and "get_focus" in ast.unparse(dn.ast)) for v, how, dn in defs):
+                            none_tests.append(t)
+            guarded = any(cfg.dominated(at, [t]) and at not in cfg.reachable_from_edges([(t, "T")]) for t in none_tests)
+            rr.inst(f"{short(fi)}:{norm(c, 40)}:walker not empty", True, {"restore": norm(c, 50), "after_a_None_test_of_the_current_focus": guarded})
+            if not guarded:
+                rr.add(finding("EXC", fi, c, f"`{norm(c, 50)}` goes on to restore / re-place the focus without first testing that the walker has a focus widget at all: when the list was emptied after set_focus() parked the change, render() raises (IndexError 'No widget at position None' / TypeError 'cannot unpack NoneType') instead of drawing an empty box", construct="pending focus change completed on an emptied list"))
     return rr
 
 
@@ -879,6 +896,7 @@ _C = "urwid/widget/columns.py"
 _G = "urwid/widget/grid_flow.py"
 _F = "urwid/widget/frame.py"
 MUTANTS = [
+    Mut("pending-focus-on-emptied-list", "urwid/widget/listbox.py", "ListBox._set_focus_complete", "        if new_focus_widget is None or focus_pos == position:", "        if focus_pos == position:", "EXC|widget.listbox.ListBox._set_focus_complete|pending focus change completed on an emptied list"),
     Mut("gridflow-focus-cell-truthy", "urwid/widget/grid_flow.py", "GridFlow._set_focus_from_display_widget", "        if c.focus is not None:  # an empty container cell is falsy but still the focus", "        if c.focus:", "SENTINEL|widget.grid_flow.GridFlow._set_focus_from_display_widget|widget c.focus tested for truthiness"),
     Mut("pile-widget-list-reads-focus-of-empty", "urwid/widget/pile.py", "urwid.widget.pile.Pile.widget_list", "        focus_position = self.focus_position if self.contents else 0\n", "        focus_position = self.focus_position\n", "GUARD|widget.pile.Pile.widget_list|widget_list setter: focus_position read without emptiness guard"),
     Mut("walker-clamp-without-floor", "urwid/widget/listbox.py", "SimpleListWalker._modified", "            self.focus = max(0, len(self) - 1)", "            self.focus = len(self) - 1", "BOUND|widget.listbox.SimpleListWalker._modified|index clamped to len(self) - 1 without a floor of 0"),
